@@ -234,9 +234,15 @@ int URI_FUNC(ComposeQueryEngine)(URI_CHAR * dest,
 		valueRequiredChars = worstCase * (int)valueLen;
 
 		if (dest == NULL) {
-			(*charsRequired) += ampersandLen + keyRequiredChars + ((value == NULL)
-						? 0
-						: 1 + valueRequiredChars);
+			/* Refuse totals beyond INT_MAX rather than wrap around;
+			 * each of the two parts is below INT_MAX by the check above */
+			const int keyPart = ampersandLen + keyRequiredChars;
+			const int valuePart = (value == NULL) ? 0 : 1 + valueRequiredChars;
+			if ((keyPart > INT_MAX - *charsRequired)
+					|| (valuePart > INT_MAX - *charsRequired - keyPart)) {
+				return URI_ERROR_OUTPUT_TOO_LARGE;
+			}
+			(*charsRequired) += keyPart + valuePart;
 
 			if (firstItem == URI_TRUE) {
 				ampersandLen = 1;
